@@ -130,8 +130,13 @@ def match_hostname(
     value: str
     for key, value in san:
         if key == "DNS":
-            if host_ip is None and _dnsname_match(value, hostname):
-                return
+            try:
+                if host_ip is None and _dnsname_match(value, hostname):
+                    return
+            except CertificateError:
+                # A malformed entry matches nothing, but it must not keep
+                # the remaining entries from being tried.
+                pass
             dnsnames.append(value)
         elif key == "IP Address":
             if host_ip is not None and _ipaddress_match(value, host_ip):
@@ -144,8 +149,11 @@ def match_hostname(
         for sub in cert.get("subject", ()):
             for key, value in sub:
                 if key == "commonName":
-                    if _dnsname_match(value, hostname):
-                        return
+                    try:
+                        if _dnsname_match(value, hostname):
+                            return
+                    except CertificateError:
+                        pass
                     dnsnames.append(value)  # Defensive: for Python < 3.9.3
 
     if len(dnsnames) > 1:
